@@ -288,23 +288,50 @@ pub fn build(spec: &AutSpec) -> Option<BoxAut> {
             Levenshtein::new(q, *d).ok()?,
             |s: &Option<usize>| show_on(s),
         ))),
-        AutSpec::Sw(a) => BoxAut(Box::new(Erase(
-            build(a)?.starts_with(),
-            |_: &_| "?".to_string(),
-        ))),
-        AutSpec::Co(a) => BoxAut(Box::new(Erase(
-            build(a)?.complement(),
-            |_: &_| "?".to_string(),
-        ))),
-        AutSpec::Un(a, b) => BoxAut(Box::new(Erase(
-            build(a)?.union(build(b)?),
-            |_: &_| "?".to_string(),
-        ))),
-        AutSpec::In(a, b) => BoxAut(Box::new(Erase(
-            build(a)?.intersection(build(b)?),
-            |_: &_| "?".to_string(),
-        ))),
+        AutSpec::Sw(a) => {
+            let inner = build(a)?;
+            if by_ref(spec) {
+                let r: &'static BoxAut = Box::leak(Box::new(inner));
+                BoxAut(Box::new(Erase(r.starts_with(), |_: &_| "?".to_string())))
+            } else {
+                BoxAut(Box::new(Erase(inner.starts_with(), |_: &_| "?".to_string())))
+            }
+        }
+        AutSpec::Co(a) => {
+            let inner = build(a)?;
+            if by_ref(spec) {
+                let r: &'static BoxAut = Box::leak(Box::new(inner));
+                BoxAut(Box::new(Erase(r.complement(), |_: &_| "?".to_string())))
+            } else {
+                BoxAut(Box::new(Erase(inner.complement(), |_: &_| "?".to_string())))
+            }
+        }
+        AutSpec::Un(a, b) => {
+            let (x, y) = (build(a)?, build(b)?);
+            if by_ref(spec) {
+                let rx: &'static BoxAut = Box::leak(Box::new(x));
+                let ry: &'static BoxAut = Box::leak(Box::new(y));
+                BoxAut(Box::new(Erase(rx.union(ry), |_: &_| "?".to_string())))
+            } else {
+                BoxAut(Box::new(Erase(x.union(y), |_: &_| "?".to_string())))
+            }
+        }
+        AutSpec::In(a, b) => {
+            let (x, y) = (build(a)?, build(b)?);
+            if by_ref(spec) {
+                let rx: &'static BoxAut = Box::leak(Box::new(x));
+                let ry: &'static BoxAut = Box::leak(Box::new(y));
+                BoxAut(Box::new(Erase(rx.intersection(ry), |_: &_| "?".to_string())))
+            } else {
+                BoxAut(Box::new(Erase(x.intersection(y), |_: &_| "?".to_string())))
+            }
+        }
     })
+}
+
+/// half of the composed specs are built over BORROWED components (`&A: Automaton`)
+fn by_ref(spec: &AutSpec) -> bool {
+    crate::util::fnv64(spec.show().as_bytes()) % 2 == 0
 }
 
 pub fn show_state(a: &BoxAut, s: &St) -> String {
